@@ -395,10 +395,13 @@ class Behavior(_IModel):
         scale = self.__yield.scale if self.__yield is not None else 1.0
         floor = 10.0 * self._tol * float(np.max(self.C[..., ZZ, ZZ]))
         tol = max(self._planeStress_tol * max(scale, 1.0), floor)
-        for _ in range(self._maxIter):
+        # without internal variables the response is linear and one step is exact: take it even
+        # when the plane-strain sig_zz of a small strain is already below the (absolute) tolerance
+        linear = self.__layout.n == 0
+        for i in range(self._maxIter):
             sig6_e_pg, C6_e_pg, _, _ = self.__Integrate_3d(eps6_e_pg, zOld_e_pg, dt)
             r_e_pg = sig6_e_pg[..., ZZ]
-            if np.max(np.abs(r_e_pg)) < tol:
+            if np.max(np.abs(r_e_pg)) < tol and not (linear and i == 0):
                 break
             eps_zz = eps6_e_pg[..., ZZ] - r_e_pg / C6_e_pg[..., ZZ, ZZ]
             eps6_e_pg[..., ZZ] = eps_zz
